@@ -581,6 +581,8 @@ def run_c10(ctx, ck):
 
     def describe(k, s):
         f = s["cases"][k].split(" ")
+        if k[0] != "ren":
+            return describe_prog(k, s)
         def src(files):
             for e in files.split(","):
                 p = e.split(".")
